@@ -48,6 +48,9 @@ impl FixtureDatabase {
                     "Failed to parse Python file {:?}: {} - keeping previous data",
                     file_path, e
                 );
+                // The cached text changed (imports are read from it), so results memoised
+                // for the previous text must not be served any more.
+                self.invalidate_cycle_cache();
                 return;
             }
         };
